@@ -45,8 +45,10 @@ theorem mem_hash_index (v : Hdr → Hdr → Bool) (ops : List Op) (hw : AllWf op
   obtain ⟨_, r, hi⟩ := mem_run_sim v ops hw _ _ rm_init absInv_init
   exact mem_hashIndex r hi h x hx
 
-/-- REDB STORE, adjacency (as long as only validated headers are stored) -/
-theorem redb_adjacent_verify (v : Hdr → Hdr → Bool) (ops : List Op) (hw : AllWf ops)
+/-- REDB STORE, adjacency, PARTIAL: as long as only validated headers are stored (`ValidRun`;
+    open finding `C19/redb/unvalidated-header-stored`: the redb store cannot read an unvalidated
+    header back, so the refinement to the abstract store is lost once one is accepted) -/
+theorem redb_adjacent_verify_partial (v : Hdr → Hdr → Bool) (ops : List Op) (hw : AllWf ops)
     (hvr : ValidRun v init ops) (h : Nat) (x y : Hdr) :
     let t := (runOps (RedbStore.step v) RedbStore.new ops).1
     RedbStore.getByHeight t h = .ok x → RedbStore.getByHeight t (h + 1) = .ok y →
@@ -56,8 +58,8 @@ theorem redb_adjacent_verify (v : Hdr → Hdr → Bool) (ops : List Op) (hw : Al
   have hi := (abs_run_inv v ops hw _ absInv_init (absVer_init v)).1
   exact redb_chain r hi v (abs_chain_invariant v ops hw) h x y hx hy
 
-/-- REDB STORE, hash index -/
-theorem redb_hash_index (v : Hdr → Hdr → Bool) (ops : List Op) (hw : AllWf ops)
+/-- REDB STORE, hash index, PARTIAL (needs `ValidRun`) -/
+theorem redb_hash_index_partial (v : Hdr → Hdr → Bool) (ops : List Op) (hw : AllWf ops)
     (hvr : ValidRun v init ops) (h : Nat) (x : Hdr) :
     let t := (runOps (RedbStore.step v) RedbStore.new ops).1
     RedbStore.getByHeight t h = .ok x →
@@ -140,7 +142,7 @@ theorem mem_adjacent_linked_fixed_clock (C : Content) (sig : Hdr → Hdr → Hea
   exact (verifyAt_adjacent hv' hadj).1
 
 /-- the same for the redb store -/
-theorem redb_adjacent_linked_fixed_clock (C : Content) (sig : Hdr → Hdr → HeaderVerify.Oracle) (now : Int)
+theorem redb_adjacent_linked_fixed_clock_partial (C : Content) (sig : Hdr → Hdr → HeaderVerify.Oracle) (now : Int)
     (ops : List Op) (hw : AllWf ops) (hvr : ValidRun (verifyAt C sig now) init ops) (h : Nat) (x y : Hdr) :
     let t := (runOps (RedbStore.step (verifyAt C sig now)) RedbStore.new ops).1
     RedbStore.getByHeight t h = .ok x → RedbStore.getByHeight t (h + 1) = .ok y →
@@ -148,7 +150,7 @@ theorem redb_adjacent_linked_fixed_clock (C : Content) (sig : Hdr → Hdr → He
       (C.c x).time < (C.c y).time ∧ (C.c y).validatorsHash = (C.c x).nextValidatorsHash ∧
       (C.c y).lastHeaderHash = (C.c x).hash := by
   intro t hx hy
-  have hv := redb_adjacent_verify (verifyAt C sig now) ops hw hvr h x y hx hy
+  have hv := redb_adjacent_verify_partial (verifyAt C sig now) ops hw hvr h x y hx hy
   have hadj : x.height + 1 = y.height := by
     unfold verifyAdjacent at hv
     split at hv
@@ -185,8 +187,8 @@ theorem mem_consecutive_headers_linked (C : Content) (sig : Hdr → Hdr → Head
   exact of_decide_eq_true (mem_pair r hi hv h x y hx hy)
 
 /-- **REDB STORE, fork-free hash-linked segments, any clock behaviour** (every header handed to
-    `insert` is validated: the documented precondition of the store, cf. `redb_adjacent_verify`). -/
-theorem redb_consecutive_headers_linked (C : Content) (sig : Hdr → Hdr → HeaderVerify.Oracle)
+    `insert` is validated: the documented precondition of the store, cf. `redb_adjacent_verify_partial`). -/
+theorem redb_consecutive_headers_linked_partial (C : Content) (sig : Hdr → Hdr → HeaderVerify.Oracle)
     (ops : List VOp) (hw : AllWfV ops) (hval : AllValidatedV ops)
     (hs : ∀ p ∈ ops, ClockSound C sig p.1) (h : Nat) (x y : Hdr) :
     let t := (runOpsV RedbStore.step RedbStore.new ops).1
@@ -215,7 +217,7 @@ theorem mem_consecutive_time_below_latest_clock (C : Content) (sig : Hdr → Hdr
   obtain ⟨_, r⟩ := memV_run_sim ops _ _ hw rm_init absInv_init
   exact (of_decide_eq_true (mem_pair r hi hv h x y hx hy)).2
 
-theorem redb_consecutive_time_below_latest_clock (C : Content) (sig : Hdr → Hdr → HeaderVerify.Oracle)
+theorem redb_consecutive_time_below_latest_clock_partial (C : Content) (sig : Hdr → Hdr → HeaderVerify.Oracle)
     (N : Int) (ops : List VOp) (hw : AllWfV ops) (hval : AllValidatedV ops)
     (hs : ∀ p ∈ ops, ClockSoundBelow C sig N p.1) (h : Nat) (x y : Hdr) :
     let t := (runOpsV RedbStore.step RedbStore.new ops).1
